@@ -182,7 +182,7 @@ Definition qlen (q : list bytes) : nat := length (concat q).
 (* after Sync, a processed tick, Stop: nothing held back, sink synced after its last write *)
 Definition flushed (o : option (list bytes * bool)) (p : phase) : option ost :=
   match o with
-  | Some (q1, d1) => if all_empty q1 && negb d1 then Some {| q := []; dirty := false; ph := p |} else None
+  | Some (q1, d1) => if all_empty q1 && negb d1 then Some {| q := q1; dirty := false; ph := p |} else None
   | None => None
   end.
 Definition ostep (sz : nat) (s : ost) (o : op) (r : res) (es : list ev) : option ost :=
